@@ -3480,15 +3480,14 @@ func (p *Posix) GetObject(_ context.Context, input *s3.GetObjectInput) (*s3.GetO
 	}
 
 	objSize := fi.Size()
+	if fi.IsDir() {
+		// directory objects are always 0 len, the range is
+		// evaluated against that length
+		objSize = 0
+	}
 	startOffset, length, isValid, err := backend.ParseGetObjectRange(objSize, *input.Range)
 	if err != nil {
 		return nil, err
-	}
-
-	if fi.IsDir() {
-		// directory objects are always 0 len
-		objSize = 0
-		length = 0
 	}
 
 	var contentRange string
